@@ -38,15 +38,15 @@ ES = "optimism.EquationSolver"
 def run(ctx):
     ctx.need_module(ES)
     ctx.need_module("optimism.Objective")
-    tr.d1_flag(ctx, DRV)
-    d1_params(ctx)
-    d1_objective_methods(ctx)
-    tr.d2_descent(ctx, DRV)
-    tr.d3_reported(ctx, DRV)
-    tr.d4_nan(ctx, DRV)
+    ctx.guard(tr.d1_flag, ctx, DRV)
+    ctx.guard(d1_params, ctx)
+    ctx.guard(d1_objective_methods, ctx)
+    ctx.guard(tr.d2_descent, ctx, DRV)
+    ctx.guard(tr.d3_reported, ctx, DRV)
+    ctx.guard(tr.d4_nan, ctx, DRV)
     from .common import settings_wiring
-    settings_wiring(ctx, "D1/T5-settings-wiring", ES)
-    boundary_labels(ctx, "D1/T6-boundary-labels-recognised", ES, "solve_trust_region_minimization")
+    ctx.guard(settings_wiring, ctx, "D1/T5-settings-wiring", ES)
+    ctx.guard(boundary_labels, ctx, "D1/T6-boundary-labels-recognised", ES, "solve_trust_region_minimization")
     ctx.trust("IEEE-754: every ordered comparison with a NaN operand is false")
     ctx.trust("rho = N/M >= c >= 0 with M >= 0 implies N >= 0 (M = 0 gives +-inf or NaN; -inf and NaN fail rho >= c)")
     ctx.assume("default mode (settings.use_incremental_objective is False) for the descent clause, as in the property text")
